@@ -202,6 +202,86 @@ theorem goIdent_injective_on_source_idents {s t : Name} (hs : isSrcIdent s = tru
 example : isSrcIdent "range".toList = true ∧ isSrcIdent "a_1".toList = true ∧
     goIdent "range".toList ≠ goIdent "a_1".toList := by decide
 
+/-! ### the hypothesis `isSrcIdent` is the lexer's identifier rule, and the escape prefix is outside it -/
+
+def inRanges (rs : List (Nat × Nat)) (c : Char) : Bool := rs.any fun r => decide (r.1 ≤ c.toNat) && decide (c.toNat ≤ r.2)
+
+theorem char_underscore (c : Char) : (c == '_') = decide (c.toNat = 95) := by
+  by_cases h : c = '_'
+  · subst h; decide
+  · have : c.toNat ≠ 95 := by
+      intro hn
+      apply h
+      apply Char.ext
+      apply UInt32.toNat_inj.mp
+      exact hn
+    rw [decide_eq_false this]
+    simpa using h
+
+/-- `isSrcIdent` is exactly the token rule extracted from the lexer on this run: first character in
+`lexerIdentFirst`, every following character in `lexerIdentRest` -/
+theorem srcIdent_is_lexer_rule :
+    (∀ c : Char, isAsciiAlpha c = inRanges lexerIdentFirst c) ∧ (∀ c : Char, isIdentChar c = inRanges lexerIdentRest c) := by
+  constructor
+  · intro c
+    simp only [isAsciiAlpha, isAsciiLower, isAsciiUpper, inRanges, lexerIdentFirst, List.any_cons, List.any_nil, Bool.or_false]
+    rw [Bool.eq_iff_iff]
+    simp only [Bool.or_eq_true, Bool.and_eq_true, decide_eq_true_eq]
+    omega
+  · intro c
+    simp only [isIdentChar, isAsciiAlnum, isAsciiAlpha, isAsciiLower, isAsciiUpper, isAsciiDigit, inRanges, lexerIdentRest,
+      List.any_cons, List.any_nil, Bool.or_false, char_underscore]
+    rw [Bool.eq_iff_iff]
+    simp only [Bool.or_eq_true, Bool.and_eq_true, decide_eq_true_eq]
+    omega
+
+/-- first character of the escape prefix -/
+def escPrefixHeadOutsideLexer : Bool :=
+  match escPrefix with
+  | c :: _ => !inRanges lexerIdentFirst c
+  | [] => false
+
+/-- the prefix `go_ident` puts before an escaped name starts with a character no identifier of the
+language can start with (checked on the two extracted tables: a prefix such as `goml_`, or an empty
+one, fails here) -/
+theorem escape_prefix_outside_lexer : escPrefixHeadOutsideLexer = true := by decide
+
+/-- hence no source identifier begins with the escape prefix: an escaped name (keyword or not) can never
+be spelled by the user, which is what `goIdent_injective_on_source_idents` rests on -/
+theorem escape_prefix_unspellable {s : Name} (h : isSrcIdent s = true) : escPrefix.isPrefixOf s = false := by
+  have hp := escape_prefix_outside_lexer
+  unfold escPrefixHeadOutsideLexer at hp
+  cases hE : escPrefix with
+  | nil => rw [hE] at hp; exact Bool.noConfusion hp
+  | cons c rest =>
+    rw [hE] at hp
+    cases s with
+    | nil => simp [isSrcIdent] at h
+    | cons d r =>
+      simp only [isSrcIdent, Bool.and_eq_true] at h
+      simp only [List.isPrefixOf, Bool.and_eq_false_iff]
+      left
+      cases hcd : (c == d) with
+      | false => rfl
+      | true =>
+        have : c = d := by simpa using hcd
+        subst this
+        have hp' : (!inRanges lexerIdentFirst c) = true := hp
+        rw [← srcIdent_is_lexer_rule.1 c, h.1] at hp'
+        exact Bool.noConfusion hp'
+
+/-- every escaped name is outside the source language (so it cannot coincide with an unescaped one) -/
+theorem escape_not_source_ident (s : Name) : isSrcIdent (escape s) = false := by
+  cases h : isSrcIdent (escape s) with
+  | false => rfl
+  | true =>
+    have h1 := escape_prefix_unspellable h
+    have h2 : escPrefix.isPrefixOf (escape s) = true := by
+      unfold escape
+      exact List.isPrefixOf_iff_prefix.mpr (List.prefix_append _ _)
+    rw [h2] at h1
+    exact Bool.noConfusion h1
+
 /-! ## C19.3 locals and temporaries -/
 
 /-- the digits of a rendered number and what precedes them are determined by the whole string:
